@@ -387,9 +387,48 @@ def check(repo, rep, tier):
         r4.violation(where, f["fq"], ident[1], f["msg"], "%s/%s" % ident)
     r5w = rep.rule("R-C06-5", "wire expressions chosen under value-dependent control are the same on every arm", floor=3)
     eval_wire_choices(repo, r5w, mods)
+    # value-dependent memory: state that outlives a call (an attribute planted on a wire object, a module table) and is consulted
+    # by a later decision carries whatever governed its store into that decision.  A store governed by a value-derived test
+    # (.value, is_guard(), ignore_errors() - the last two are switched by the VALUE of a secret guard) makes what is emitted
+    # later depend on the values processed earlier.
+    r6m = rep.rule("R-C06-6", "state kept across calls and consulted by decisions is not written under value-dependent control", floor=0)
+    import ast
+    from .memoryless import persistent_stores, decision_reads, SANCTIONED
+    from ..hints import paths_to as _pt6
+    stores_ = persistent_stores(repo)
+    reads_ = decision_reads(repo, set(stores_))
+    for nm_ in sorted(stores_):
+        if nm_ in SANCTIONED or nm_ not in reads_:
+            continue
+        for sfi, snode, how in stores_[nm_]:
+            st_ = snode
+            while getattr(st_, "_parent", None) is not None and not isinstance(st_, ast.stmt):
+                st_ = st_._parent
+            tainted_tests = []
+            ifs_ = {id(n.test): n for n in ast.walk(sfi.node) if isinstance(n, ast.If)}
+            for pth in _pt6(sfi.node, st_) or []:
+                for t_, _pol in pth.conds:
+                    tt = norm(t_)
+                    if not (".value" in tt or "ignore_errors()" in tt or "is_guard()" in tt):
+                        continue
+                    # a test whose other outcome raises does not distinguish completing runs (a run-time check ahead of the store)
+                    iff = ifs_.get(id(t_))
+                    other = (iff.orelse if _pol else iff.body) if iff is not None else None
+                    if other and isinstance(other[-1], ast.Raise):
+                        continue
+                    tainted_tests.append(tt)
+            if tainted_tests:
+                rf, rt = reads_[nm_][0]
+                r6m.violation(sfi.loc(snode), sfi.fq, "state `%s` (%s) written only when `%s`; consulted by `%s` in %s" % (
+                    nm_, how, tainted_tests[0][:60], norm(rt)[:60], rf.qual),
+                    "what is remembered depends on the values processed (the test is value-derived: a secret guard's value switches "
+                    "error suppression), and a later call decides what to emit by looking at it: the constraint system depends on "
+                    "the values", "memo-tainted/%s" % nm_)
+            else:
+                r6m.note(sfi.loc(snode), sfi.fq, "state `%s` (%s)" % (nm_, how), "kept across calls, written unconditionally of values "
+                         "(history dependence is judged by the memoryless rule of C02/C03/C05/C07/C08)")
     # positive instances: lc arithmetic sites with public scalars
     n_lc = 0
-    import ast
     for m in repo.modules.values():
         if m.name not in mods:
             continue
